@@ -1807,6 +1807,7 @@ func mat8(c *Ctx) {
 		return
 	}
 	isBool := c.fnOpt("internal/values", "IsBool")
+	c.loneDash(top)
 	type classes struct{ eq, sep, flag int }
 	perFn := map[string]*classes{}
 	for _, call := range ir.Calls(top) {
@@ -2756,4 +2757,80 @@ func (c *Ctx) proveGE0(fn *ssa.Function, at ssa.Instruction, goal lin, depth int
 // splitsToken: strings.SplitN and strings.Cut hand back sub-strings of their first argument.
 func splitsToken(f *ssa.Function) bool {
 	return ir.IsStdFunc(f, "strings", "SplitN") || ir.IsStdFunc(f, "strings", "Cut")
+}
+
+// loneDash: in the scan of the option matcher a lone `-` is a positional-looking token that is stepped
+// over: no sub-matcher is handed a token that may be "-" (it would look it up as an option name, not
+// find it, and end the scan: `- -f` would be refused), and the branch that finds it goes on scanning.
+func (c *Ctx) loneDash(top *ssa.Function) {
+	var dashTests []*ssa.BinOp
+	ir.Instrs(top, func(in ssa.Instruction) {
+		bo, ok := in.(*ssa.BinOp)
+		if !ok || !(bo.Op == token.EQL || bo.Op == token.NEQ) {
+			return
+		}
+		for _, side := range []ssa.Value{bo.X, bo.Y} {
+			if k, isK := ir.ConstString(side); isK && k == "-" {
+				dashTests = append(dashTests, bo)
+			}
+		}
+	})
+	n := 0
+	for _, call := range ir.Calls(top) {
+		fn := ir.Static(call)
+		if fn == nil || fn.Pkg != top.Pkg || fn.Signature.Recv() == nil || fn.Signature.Results().Len() != 3 {
+			continue
+		}
+		n++
+		key := fmt.Sprintf("%s:lone-dash@%s", Q(top), relLine(c, top, call.Pos()))
+		var idx ssa.Value
+		for _, a := range call.Common().Args {
+			if b, ok := a.Type().Underlying().(*types.Basic); ok && b.Kind() == types.Int {
+				idx = a
+			}
+		}
+		excluded := false
+		for _, bo := range dashTests {
+			if !ir.HoldsAt(bo, bo.Op == token.NEQ, call.Block()) {
+				continue
+			}
+			// the tested string is the token at the index the sub-matcher gets
+			other := bo.X
+			if _, isK := ir.ConstString(other); isK {
+				other = bo.Y
+			}
+			if ld, isLd := other.(*ssa.UnOp); isLd && ld.Op == token.MUL {
+				if ia, isIA := ld.X.(*ssa.IndexAddr); isIA && idx != nil && ia.Index == idx {
+					excluded = true
+				}
+			}
+		}
+		c.Check(excluded, key, call.Pos(), "the sub-matcher is reached only with a token known not to be a lone `-`", "the sub-matcher can be handed a lone `-`: it is looked up as an option name, not found, and the scan ends there (`- -f` refused although `-` is an ordinary positional)")
+	}
+	// the branch that finds the lone dash does not leave the function before the scan goes on
+	for _, bo := range dashTests {
+		for _, e := range ir.EdgesWhere(top, bo, bo.Op == token.EQL) {
+			leaves := false
+			// blocks reachable without passing a loop header (a block with a phi)
+			stop := map[*ssa.BasicBlock]bool{}
+			for _, b := range top.Blocks {
+				if len(b.Instrs) > 0 {
+					if _, isPhi := b.Instrs[0].(*ssa.Phi); isPhi && b != e.To {
+						stop[b] = true
+					}
+				}
+			}
+			for b := range ir.Reach(e.To, stop, nil) {
+				if len(b.Instrs) > 0 {
+					if _, isRet := b.Instrs[len(b.Instrs)-1].(*ssa.Return); isRet {
+						leaves = true
+					}
+				}
+			}
+			c.Check(!leaves, fmt.Sprintf("%s:lone-dash:skipped@%s", Q(top), relLine(c, top, bo.Pos())), bo.Pos(), "a lone `-` is stepped over and the scan goes on", "finding a lone `-` can end the scan: options behind it would not be found")
+		}
+	}
+	if n == 0 {
+		c.Undecided(Q(top)+":lone-dash", top.Pos(), "no sub-matcher call found in the option matcher")
+	}
 }
